@@ -385,9 +385,11 @@ func te2eXfer(kv map[string]string) string {
 	}
 	n := atoi(kv["n"])
 	oneway, seed := kv["mode"] == "oneway", int64(atoi(kv["seed"]))
-	r := te2eTransfer(px, n, atoi(kv["ch"]), kv["pat"], oneway, seed, 700*time.Millisecond)
-	if r.err != "" { // no tagged reply at all: once more before reporting it
-		r = te2eTransfer(px, n, atoi(kv["ch"]), kv["pat"], oneway, seed, 700*time.Millisecond)
+	r := te2eTransfer(px, n, atoi(kv["ch"]), kv["pat"], oneway, seed, 2*time.Second)
+	if r.err != "" || (r.tag && !(r.up && r.down && r.eof)) {
+		// no tagged reply at all, or a timeout inside the transfer (loaded machine?): once more before
+		// reporting it — a systematic fault shows again; a wrong tag (cross-wiring) is never retried
+		r = te2eTransfer(px, n, atoi(kv["ch"]), kv["pat"], oneway, seed, 4*time.Second)
 	}
 	if r.err != "" {
 		return "err=" + r.err
@@ -418,8 +420,9 @@ func te2eMulti(kv map[string]string) string {
 			ok++
 		case r.err == "" && !r.tag:
 			xw++
-		case !final && r.err != "":
-			// could not even get a tagged reply (loaded machine?): once more, alone
+		case !final:
+			// anything but a clean transfer or a wrong tag (loaded machine? a timeout inside the
+			// transfer): once more, alone — a systematic fault shows again, cross-wiring is never retried
 			retry = append(retry, again{j, px})
 		default:
 			bad++
